@@ -19,7 +19,7 @@ BOUNDS = {
              'x,y,z in [0,box] (inclusive), free weight (or None), free offset in [0, box/max(n)], arbitrary symbolic pre-grid; '
              '_wrap_inplace on x in [-box, 2box); tsc_parallel(nthread=1, wrap=True) wiring on (3,3,1) with box=1, x0 in [-box,2box)'
              '; also: wiring items (shared with C07): N=2 (npartition 2, nthread 1) and N=3 (n1d 7, npartition 2, nthread 2), sort on/off, weights on/off',
-    'thorough': 'quick plus TSC (4,4,4) (5,5,5) (6,6,6) (5,4,1) and CIC (3,4,5) (4,4,4) (4,4,1), wrap wiring along each axis, two particles (first inside cell (1,1,.), second free, box=1) on (3,3,1)',
+    'thorough': 'quick plus TSC (4,4,4) (5,4,1) and CIC (3,4,5) (4,4,4) (4,4,1), wrap wiring along each axis, two particles (first inside cell (1,1,.), second free, box=1) on (3,3,1)',
 }
 OUTSIDE = 'float32/float64 rounding and fastmath (real model); grids with an axis of length < 3 other than the one-cell-thick ' \
           'third axis (TSC clouds are 3 cells wide; such grids are not claimed); offsets outside [0, one cell]; grid sizes ' \
@@ -284,7 +284,7 @@ def items(tier, seed):
     tg = [(3, 3, 3), (3, 4, 5), (4, 3, 1), (3, 3, 1)]
     cg = [(3, 3, 3), (3, 3, 1), (4, 3, 1)]
     if tier == 'thorough':
-        tg += [(4, 4, 4), (5, 5, 5), (6, 6, 6), (5, 4, 1)]
+        tg += [(4, 4, 4), (5, 4, 1)]        # (5,5,5) and (6,6,6) run for hours per x-slab (measured): not registered
         cg += [(3, 4, 5), (4, 4, 4), (4, 4, 1)]
     for kind, grids in (('tsc', tg), ('cic', cg)):
         for g in grids:
